@@ -527,7 +527,7 @@ def einsum(spec: str, bcast: int, maxlen: int = 3) -> JobOut:
     """bcast: bitmask over (operand, axis) positions forced to length 1 (broadcast-unit axes)"""
     import pytato as pt
     from pv.chfix import notrace_hash
-    notrace_hash(pt.array.EinsumElementwiseAxis, pt.array.EinsumReductionAxis)
+    pass
     ins, out = spec.split("->")
     ins = ins.split(",")
     letters = sorted(set("".join(ins)))
